@@ -229,7 +229,15 @@ def struct(m):
         if isinstance(m, (models.InlineComment, models.Ignored)):
             # trailing blanks are lexed into the comment / ignored-line lexeme (set aside by C06)
             txt = txt.rstrip(' \t\r')
-        return (type(m).__name__, txt)
+        v = getattr(m, 'value', None) if hasattr(type(m), 'value') else None
+        if v is None or isinstance(m, (models.InlineComment, models.Ignored)):
+            return (type(m).__name__, txt)
+        # the value the token denotes is part of "fields and values" (Decimal compared numerically)
+        import decimal
+        if isinstance(v, decimal.Decimal):
+            v = str(v.normalize()) if v == v else 'NaN'
+        extra = (getattr(m, 'indent', None),) if isinstance(m, models.BlockComment) else ()
+        return (type(m).__name__, txt, repr(v)) + extra
     if isinstance(m, internal.Repeated):
         return ('Repeated', tuple(struct(x) for x in m.items))
     out = []
